@@ -202,7 +202,8 @@ def population_update(rep, prog):
     # the mother is recorded for removal exactly when her two daughters are added: same facts at the three pushes
     if len(cell_pushes) == 2 and len(idx_pushes) == 1:
         from ..model import facts_at
-        fset = lambda n_: {(render(a_).replace(" ", ""), t_) for a_, t_ in facts_at(fn, fi, n_)}
+        canon = lambda t_: t_.replace(" ", "").replace(".operatorbool()", ".has_value()").replace("(bool)", "")
+        fset = lambda n_: {(canon(render(a_)), t_) for a_, t_ in facts_at(fn, fi, n_)}
         fi_, fd = fset(idx_pushes[0]), [fset(x) for x in cell_pushes]
         if all(fi_ == d_ for d_ in fd):
             rep.ok("C09.population-update", prog, fn, idx_pushes[0], "the mother's index is recorded under the same conditions as the two daughters are appended (%s)" % ", ".join(sorted(("" if t_ else "!") + a_[:40] for a_, t_ in fi_)))
